@@ -7,6 +7,7 @@ verus! {
 // writes) and dec_vocab.rs (what unit dec proves MessageDecoder::decode computes). The attribute is abstract; the one
 // hypothesis about it (axiom_attr_roundtrip) is the statement unit attrs proves over the real 39-variant enum.
 //@include prelude/core.rs
+//@include prelude/std_misc.rs
 //@include inc/codec_common.rs
 //@include inc/raw_header.rs
 //@include inc/admission.rs
